@@ -884,6 +884,8 @@ class World:
         for g in gone:
             model.zombies[g]["group"] = uid
             model.zombies[g]["entry"] = entry
+            # (kept after the identifier is re-used: a removal through the parent leaves the node in the file -- known finding)
+            model.__dict__.setdefault("removed_entry", {})[g] = entry
         self.sim.probe("rm_" + entry)
         return gone
 
